@@ -329,6 +329,12 @@ func (v *Verifier) lookupType(name string) types.Type {
 	case "[]byte":
 		return types.NewSlice(types.Typ[types.Uint8])
 	}
+	if strings.HasPrefix(name, "[]") {
+		if t := v.lookupType(name[2:]); t != nil {
+			return types.NewSlice(t)
+		}
+		return nil
+	}
 	if strings.HasPrefix(name, "*") {
 		if t := v.lookupType(name[1:]); t != nil {
 			return types.NewPointer(t)
